@@ -93,6 +93,11 @@ def server_hostile(w, rnd, mon, full):
         for name, d, pr in pats:
             ev = w.call("srv_reconnect", h=5, data=d, proof=pr)
             check(mon, ev, "server:reconnect", name, w2_setup)
+        # a long run of consecutive failed attempts (anyone who knows the username can send these)
+        for i in range(300 if full else 0):
+            ev = w.call("srv_reconnect", h=5, data=bytes([i & 0xFF]) * 16, proof=bytes([(i * 7) & 0xFF]) * 20)
+            if not check(mon, ev, "server:reconnect", "consecutive_failures", w2_setup + ["# after %d consecutive failed attempts" % i]):
+                break
         ev = w.call("clt_reconnect", h=6, chal=rnd.choice([bytes(16), b"\xff" * 16, chal]))
         check(mon, ev, "client:reconnect_challenge", "pattern", w2_setup)
 
